@@ -219,7 +219,7 @@ class C15(Prop):
         "columnSubset_ok_of_few_pk", "reasonableRF_cons_shape_partial", "wussNopseudo_pairs", "wussFull_total", "flushLeftInserts_inplace", "kh_roundtrip_pairs", "transformed_wellformed", "generated_wf_side_conditions",
         # round 6
         "reasonableRF_cons_no_alphabet", "reasonableRF_cons_digital", "reasonableRF_cons_text_eq_digital", "reasonableRF_cons_text_shape", "generated_text_cells", "reasonableRF_threshold_exact",
-        "setStr_frame", "setStr_stores", "formatStr_is_setStr", "markFragments_threshold_exact", "sample_wellformed")]
+        "setStr_frame", "setStr_stores", "formatStr_is_setStr", "markFragments_threshold_exact", "sample_wellformed", "setStr_wellformed", "generated_abcOk", "history_wellformed", "exRfText_inv")]
     claimed = True
     technique = ("Lean 4 proof about an executable hand model of esl_msa.c / esl_wuss.c (in-place compaction loop = filter-by-mask on every aligned field, well-formedness invariants, "
                  "tag-table rebuild of SequenceSubset, mode-conversion and reverse-complement identities over alphabet tables regenerated from the tree, 27-stack WUSS reader = 27 Dyck recognisers, "
@@ -236,8 +236,16 @@ class C15(Prop):
                   "the retained pairs' for every letter-free SS line through repair + compaction; esl_wuss_reverse involutive. The hand model is tied to the working tree by an exact field-by-field differential run; "
                   "Round 4: esl_ct2wuss / esl_ct2simplewuss total (eslOK or 'not enough letters'), success for <= 26 pseudoknotted pairs, pseudoknotted round trip for both, exact surviving pairs "
                   "after repair + compaction for SS_cons and every per-sequence SS through every column-removing entry point. "
+                  "Round 6: ReasonableRF(useconsseq) in every branch incl. the repaired text branch, exact rational thresholds of ReasonableRF / MarkFragments, the Set*/Format* family, esl_msa_Sample for every random source. "
                   "monitors restate the property on the implementation's own dumps against independent Python readers.")
-    level_note = ("Round 4: esl_ct2wuss AND esl_ct2simplewuss are now TOTAL on every symmetric pair table (ct2wuss_total, ct2simplewuss_total): eslOK or the documented eslEINVAL "
+    level_note = ("Round 6: esl_msa_ReasonableRF(useconsseq=TRUE) as repaired by 0c757a4 in every branch (known finding retired): reasonableRF_cons_no_alphabet (eslEINVAL), reasonableRF_cons_text_eq_digital "
+                  "(text branch with a caller-supplied alphabet = digital branch on esl_msa_Digitize's result, for every threshold / weights / arithmetic), reasonableRF_cons_text_shape, generated_text_cells; "
+                  "thresholds in exact arithmetic over Q with the code's own comparisons: reasonableRF_threshold_exact (r > 0 && r/totwgt >= symfrac), markFragments_threshold_exact (span < (int) ceil(t*alen) iff span < t*alen); "
+                  "the Set*/Format* family (7 + 7 functions, explicit length n, NULL erasure, idx >= nseq / NULL name refused with eslEINCONCEIVABLE resp. eslEINVAL): setStr_frame, setStr_stores, formatStr_is_setStr; "
+                  "esl_msa_Sample over an arbitrary source of 32-bit words (driver: Mersenne Twister of C09; probabilities and maxn regenerated from the tree): sample_wellformed for every source and state. "
+                  "Generators: every WUSS routine applied ONCE on odd/even lengths with pairing symbols at the first / last / exact centre column, directly and through esl_msa_ReverseComplement (SS_cons + per-sequence SS); "
+                  "histories of 4-9 transformations with digital<->text switches at 15/16/17/31/32/33 sequences and 0/1/2 columns; sampled alignments followed by transformation chains. Defect found and repaired: 5db1eba. "
+                  "Round 4: esl_ct2wuss AND esl_ct2simplewuss are now TOTAL on every symmetric pair table (ct2wuss_total, ct2simplewuss_total): eslOK or the documented eslEINVAL "
                   "'not enough letters' - never an out-of-bounds access of ct/cct/ss/rb[26], never 'cannot find left partner', never eslEINCONCEIVABLE, never eslFAIL 'found x out of y pairs' "
                   "(npairs_reached is proved equal to the number of pairs); ct2wuss_ok_iff: eslOK iff the greedy lettering does not run out of A..Z; combinatorial sufficient condition "
                   "ct2wuss_ok_of_few_pk / ct2simplewuss_ok_of_few_pk: at most 26 pseudoknotted pairs (q < p < ct[q] < ct[p]) => converted and read back identically (bound attained: the 27-pair witness is "
